@@ -117,18 +117,7 @@ KNOWN += [
      "consequence of the misplaced mass matching scales: m(m) = m violated for matching ratios != 1 when a patch is crossed"),
 ]
 
-for _d in ("up", "down"):
-    KNOWN.append(("C50", f"exponent/unpol/n=3/{_d}/class=intrinsic",
-                  "NNLO matching of an intrinsic heavy-quark input: the O(a_s^2) matching elements of the intrinsic column are not implemented (doc/source/theory/Matching.rst: 'not encoded'), so the evolved PDFs depend on the matching ratio at O(a_s^2) (exponent 2.0 < 3); not repaired: missing physics input"))
-    for _n in (2, 3):
-        KNOWN.append(("C50", f"exponent/pol/n={_n}/{_d}/class=intrinsic",
-                      "polarised evolution has no matching elements for an intrinsic heavy-quark input at all: dependence on the matching ratio at O(a_s) (exponent 1.0); not repaired: missing physics input"))
-        KNOWN.append(("C50", f"exponent/tl/n={_n}/{_d}/class=intrinsic",
-                      "time-like evolution has no matching elements for an intrinsic heavy-quark input: dependence on the matching ratio at O(a_s) (exponent 1.0); not repaired: missing physics input"))
-    KNOWN.append(("C50", f"exponent/pol/n=3/{_d}/class=light",
-                  "polarised NNLO: A_Hg^(2) single-log coefficient is twice the RG value (see C29 rg-derivative/ps/A2/entry=Hg): dependence on the matching ratio at O(a_s^2) (exponent 2.0 < 3); test-pinned, not repaired"))
-    KNOWN.append(("C50", f"exponent/tl/n=3/{_d}/class=light",
-                  "time-like NNLO matching conditions are unknown and set to zero (documented in TimeLike.rst): dependence on the matching ratio at O(a_s^2) (exponent 2.0 < 3); not repairable"))
+# (C50: the per-block entries of the audit round replace the 14 class-level ones)
 
 
 # entries of the audit round (found by the extended checks; texts written by the implementers of the extensions)
